@@ -6,6 +6,7 @@ an arbitrary program of co_awaits (every awaiter of the library, any number of a
 outcomes), against an environment that fulfils the awaited objects at any moment, registers any number of foreign callbacks on
 SharedFutures that have other observers (= the other coroutines awaiting the same SharedFuture), swaps executors in cores it can
 reach, and Calls or Drops every submitted job.  All interleavings at atomic-operation granularity, stale pre-check loads included.
+(The executor swap D12 and the cancelling `~Task` D13 are repaired in /repo: 8ca0444, 2690a63.)
 `w.WF`: the arity of each awaiter and no awaited object twice in one awaiter (API preconditions); `w.WFT`: Task awaiters await
 Tasks.  Helper lemmas and the inductive invariants are in Proofs/Coro*.lean.
 -/
@@ -67,7 +68,7 @@ theorem await_leaves_ready (hwf : w.WF) (hwt : w.WFT) (h : Reachable w s) {got :
       refine ⟨allDone_of_all_res hall, ?_⟩
       intro op' rest' ht' j hj
       rw [ht] at ht'; cases ht'
-      simp only [doResume, State.word, cellsAfter_word]
+      simp only [doResume, State.word]
       exact hall j hj
 
 /-! ### with its outcome -/
@@ -114,50 +115,53 @@ theorem resume_sticky_own_executor (hwf : w.WF) (hwt : w.WFT) (h : Reachable w s
 theorem submit_where_asked (hwf : w.WF) (hwt : w.WFT) (h : Reachable w s) :
     ∀ x ∈ s.submits, ∀ op, w.prog[x.1]? = some op → execOk op.kind x.2 = true := (full_reachable hwf hwt h).d.sub_ok
 
-/-- After a resumption by the thread that completed awaited object j (`co_await future`, Await(…), Task) the coroutine's executor is
-    the one stored in that core ("continue where the producer is") — **provided nobody else can reach the core**.
-    Full statement (FALSE, defect D12): `∀ r ∈ s.resumed, ∀ j, r.ctx = .cell j → r.exAfter = (w.cell j).exec0 ∨ r.exAfter = r.exBefore`. -/
-theorem executor_after_await_partial (hwf : w.WF) (hwt : w.WFT) (h : Reachable w s) :
-    ∀ r ∈ s.resumed, ∀ j, r.ctx = .cell j → w.unsafeCell j = false → (w.cell j).lazy = false → r.exAfter = (w.cell j).exec0 :=
+/-- **after a resumption by the thread that completed awaited object j** (`co_await future`, Await(…)) **the coroutine's executor is
+    the one stored in that core** ("continue where the producer is") — for unique and shared cores, any number of other awaiters.
+    (A Task may move to another executor while it runs; the awaiting coroutine then continues on that one: not constrained here.)
+    Until /repo 8ca0444 this was false for SharedFutures with several awaiters (defect D12): `PromiseType::Here/Next(caller)` did
+    `_executor = std::move(caller._executor)`, IntrusivePtr move-assignment is a Swap, and a shared core is the caller of every
+    coroutine that awaits it, so the second one resumed received the executor the first one left there.  Only
+    `executor_after_await_partial` (cores nobody else can reach) was provable; the witness `executor_after_await_violated_witness`
+    was: `prog = [On(e1), Await(cell 0)]`, cell 0 shared with other observers, run `start; submit 1; exCall; resume; start; rdLoad
+    .empty; ready false; regLoad 0 .empty; cas 0 .ok; pXchg 0; envSwap 0 2; fire 0 0; resume` ⇒ `exBefore = 1`, core's executor 0,
+    `exAfter = 2`; harness scenario `coro cells=s/val:2/fib/0,u/val:1/pre/0,u/val:1/pre/0 execs=run,run n=2
+    c0=future;1;0;val:7;resched:1:,multi:-:0+1,current:-: c1=future;1;0;val:7;resched:2:,multi:-:0+2,current:-:` (every schedule). -/
+theorem executor_after_await (hwf : w.WF) (hwt : w.WFT) (h : Reachable w s) :
+    ∀ r ∈ s.resumed, ∀ j, r.ctx = .cell j → (w.cell j).lazy = false → r.exAfter = (w.cell j).exec0 :=
   (full_reachable hwf hwt h).e.rec_cell_exec
 
-def wD12 : Workload :=
-  { prog := [⟨.resched (some 1), [], false⟩, ⟨.single, [0], false⟩], cells := [{ shared := true, others := true }],
-    ret := .val 7, catches := false, locals := 0 }
+/-- … and the awaited core keeps its executor: `Await(fs…)` does not write the futures' cores -/
+theorem awaited_core_keeps_executor (hwf : w.WF) (hwt : w.WFT) (h : Reachable w s) :
+    ∀ j, (w.cell j).lazy = false → (s.cells j).cexec = (w.cell j).exec0 :=
+  (full_reachable hwf hwt h).e.cexec
 
-/-- **D12 (open)**: `PromiseType::Here/Next(caller)` swaps the coroutine's executor with the one stored in the completed core; a
-    shared core is the caller of every coroutine that awaits it, so the second one resumed receives the executor the first one
-    left there.  Witness: the coroutine does `On(e1)` then `Await(sf)`; another coroutine (on e2) awaiting the same SharedFuture is
-    resumed first (`envSwap 0 2`); afterwards this coroutine's executor is e2 — neither its own (e1) nor the awaited core's
-    (inline, 0) — so `CurrentExecutor()` reports e2 and Yield / AwaitSticky would move it onto e2. -/
-theorem executor_after_await_violated_witness :
-    ∃ s, wD12.WF ∧ wD12.WFT ∧ Reachable wD12 s ∧
-      ∃ r ∈ s.resumed, r.ctx = .cell 0 ∧ r.exBefore = 1 ∧ (wD12.cell 0).exec0 = 0 ∧ r.exAfter = 2 ∧ s.exec = 2 := by
-  have hwf : wD12.WF := by
-    intro op hop
-    simp [wD12] at hop
-    rcases hop with h | h <;> subst h <;> simp [Op.wf]
-  have hwt : wD12.WFT := by
-    intro op hop j hj
-    simp [wD12] at hop
-    rcases hop with h | h <;> subst h <;> simp at hj
-    subst hj; simp [wD12, Workload.cell]
-  have h0 : Reachable wD12 (init wD12) := .init
-  have h1 := validator_sound h0 (l := .start) (s' := _) rfl
-  have h2 := validator_sound h1 (l := .submit 1) (s' := _) rfl
-  have h3 := validator_sound h2 (l := .exCall) (s' := _) rfl
-  have h4 := validator_sound h3 (l := .resume none true) (s' := _) rfl
-  have h5 := validator_sound h4 (l := .start) (s' := _) rfl
-  have h6 := validator_sound h5 (l := .rdLoad .empty) (s' := _) rfl
-  have h7 := validator_sound h6 (l := .ready false) (s' := _) rfl
-  have h8 := validator_sound h7 (l := .regLoad 0 .empty) (s' := _) rfl
-  have h9 := validator_sound h8 (l := .cas 0 .ok) (s' := _) rfl
-  have h10 := validator_sound h9 (l := .pXchg 0) (s' := _) rfl
-  have h11 := validator_sound h10 (l := .envSwap 0 2) (s' := _) rfl
-  have h12 := validator_sound h11 (l := .fire 0 0) (s' := _) rfl
-  have h13 := validator_sound h12 (l := .resume none true) (s' := _) rfl
-  exact ⟨_, hwf, hwt, h13, ⟨1, ⟨.single, [0], false⟩, .cell 0, true, none, 1, 2⟩,
-    List.mem_iff_getElem?.mpr ⟨1, rfl⟩, rfl, rfl, rfl, rfl, rfl⟩
+/-! ### a Task that was only Await()ed -/
+
+/-- **destroying a Task that already completed just releases it**: `~Task` takes the `Ready()` branch exactly when the word is
+    `result`, and then writes neither the word nor the Result nor anything else of the awaited core (until /repo 2690a63, D13, it
+    cancelled the finished Task: `StoreCallback` over the `result` word, `Drop` = `Store(StopTag)` over the live Result, a second
+    `exchange`) -/
+theorem completed_task_just_releases {j : Nat} {s' : State} (hs : Step s (.tdtor j) s') :
+    (s.word j).isResult = true ∧ s'.cells = s.cells ∧ (∀ i, s'.stored i = s.stored i) ∧ s'.pc = s.pc ∧ s'.todo = s.todo ∧
+    s'.tasksReleased = s.tasksReleased ++ [j] := by
+  cases hs with
+  | tdtor _ _ _ hr => exact ⟨hr, rfl, fun _ => rfl, rfl, rfl, rfl⟩
+
+/-- … and right after `co_await Await(task)` / `co_await task` resumed, the Task is complete: its destructor is that step -/
+theorem awaited_task_is_complete (hwf : w.WF) (hwt : w.WFT) (h : Reachable w s) {got : Option (Option Res)} {ad : Bool} {s' : State}
+    (hs : Step s (.resume got ad) s') {op : Op} {rest : List Op} (ht : s.todo = op :: rest) (hk : op.kind = .task) :
+    ∀ j ∈ op.cells, ∃ s'', Step s' (.tdtor j) s'' := by
+  intro j hj
+  have hf := full_reachable hwf hwt h
+  have hres := (await_leaves_ready hwf hwt h hs).2 op rest ht j hj
+  have hlazy := (wft_lazy hwt hf.i.a ht hj).mp hk
+  have hw' : s'.w = w := by
+    cases hs with
+    | resume op' rest' c hp ht' => exact hf.i.a.hw
+  have hpc : s'.pc = .idle := by
+    cases hs with
+    | resume op' rest' c hp ht' => rfl
+  exact ⟨_, Step.tdtor s' j hpc (by rw [hw']; exact hlazy) hres⟩
 
 /-! ### the coroutine's own Result -/
 
@@ -407,5 +411,8 @@ theorem tie_AtomicCounter_SubEqual : Extracted.Kernels.AtomicCounter_SubEqual = 
 theorem tie_BaseCore_Ready : Extracted.Kernels.BaseCore_Ready = Skeletons.BaseCore_Ready := rfl
 theorem tie_BaseCore_SetCallbackImpl : Extracted.Kernels.BaseCore_SetCallbackImpl = Skeletons.BaseCore_SetCallbackImpl := rfl
 theorem tie_BaseCore_SetResultImpl : Extracted.Kernels.BaseCore_SetResultImpl = Skeletons.BaseCore_SetResultImpl := rfl
+theorem tie_Task_dtor : Extracted.Kernels.Task_dtor = Skeletons.Task_dtor := rfl
+theorem tie_Task_Cancel : Extracted.Kernels.Task_Cancel = Skeletons.Task_Cancel := rfl
+theorem tie_PromiseCore_Here : Extracted.Kernels.PromiseCore_Here = Skeletons.PromiseCore_Here := rfl
 
 end Yaclib.Props.C13.Tie
